@@ -3,7 +3,8 @@
 Everything here is a static analysis of the MIR facts written by driver/.
 Nothing executes library code.
 """
-import json, os, re, sys
+import json
+import os, re, sys
 from collections import defaultdict, deque
 
 # ---------------------------------------------------------------------------
@@ -680,6 +681,14 @@ class Body:
             if el == "deref":
                 e = simp_deref(e)
             elif "f" in el:
+                # capture forwarding: a field of a closure environment that is built in this very body (an inlined closure) is the
+                # captured operand itself - `(*env.buffered_vector)` is `buffered_vector`
+                x_ = e
+                while x_[0] in ("ref", "deref"):
+                    x_ = x_[1]
+                if x_[0] == "agg" and x_[1] in ("closure", "coroutine") and isinstance(el.get("f"), int) and el["f"] < len(x_[5]) and not os.environ.get("VERIF_NO_CAPTURE_FORWARD"):
+                    e = x_[5][el["f"]]
+                    continue
                 nm = el["name"]
                 if "." in nm or nm.startswith("*"):
                     # closure capture such as `**self.buffered_vector`: the captured place's last field
